@@ -287,7 +287,9 @@ func (s *Server) receiveLoop(ctx context.Context) {
 
 		// Parse Ethernet header
 		dstMAC := net.HardwareAddr(buf[0:6])
-		srcMAC := net.HardwareAddr(buf[6:12])
+		// The source address outlives this iteration (a new session keeps it as its
+		// ClientMAC), so it must not alias the receive buffer, which the next frame overwrites
+		srcMAC := append(net.HardwareAddr(nil), buf[6:12]...)
 		etherType := binary.BigEndian.Uint16(buf[12:14])
 
 		// Check if it's for us (broadcast or our MAC)
